@@ -1,0 +1,33 @@
+//go:build verif
+
+// Machine-checked contracts (Gobra-style //@ comments) for the verification harness in /verif.
+// This file contains no code; it is compiled only under the build tag "verif".
+package state
+
+// blockValidFor(s, b): the block verifier installed in state s (the consensus state's ValidateBlock, whose
+// meaning is established by its own contract, property C02) accepts block b.
+//@ spec blockValidFor(s Ref, b Ref) Bool
+
+//@ func (*State).ValidateBlock
+//@   trusted
+//@   pure
+//@   ensures (result == nil) == blockValidFor(s, block)
+
+//@ func (*State).validateBlock
+//@   trusted
+//@   pure
+//@   ensures (result == nil) == blockValidFor(s, block)
+
+//@ func (*State).setBlockAndValidators
+//@   props C02 C01
+//@   requires s != nil
+//@   assigns  s.LastBlockHeight, s.LastBlockID.*, s.LastBlockTime.*, s.Validators, s.LastValidators, s.LastNonEmptyHeight
+//@   ensures  [chain-links-to-applied-block] s.LastBlockHeight == height && s.LastBlockID == blockID
+//@   ensures  [validator-sets-shift] s.Validators == nextValSet && s.LastValidators == prevValSet
+
+//@ func (*State).SetBlockAndValidators
+//@   props C02 C01
+//@   requires s != nil && header != nil
+//@   assigns  s.LastBlockHeight, s.LastBlockID.*, s.LastBlockTime.*, s.Validators, s.LastValidators, s.LastNonEmptyHeight
+//@   ensures  [chain-links-to-applied-block] s.LastBlockHeight == header.Height && s.LastBlockID.Hash == headerHashOf(header) && s.LastBlockID.PartsHeader == blockPartsHeader
+//@   ensures  [validator-sets-shift] s.Validators == nextValSet && s.LastValidators == prevValSet
